@@ -293,7 +293,14 @@ Definition tr_def (U : universe) (names : list (ustring * id)) (d : rust_def) (s
       let '(is, st1) := tr_tys names ts st in
       let '(t, st2) := alloc (DTuple is) st1 in (DNewtype n None t CNone, st2)
   | RdNewtype n t =>
-      let '(i, st1) := tr_ty names t st in (DNewtype n None i CNone, st1)
+      (* a plain `struct N(T)` (no #[serde(transparent)]) reads and writes exactly like T, EXCEPT that an
+         absent member of type N is an error even when T is an Option: serde's MissingFieldDeserializer only
+         answers deserialize_option, and the derived impl calls deserialize_newtype_struct.  IR/Serde.v's
+         [DNewtype .. CNone] is typify's TRANSPARENT newtype (an absent member is accepted when the inner
+         type reaches an Option), so the plain newtype struct is rendered as the single-variant untagged
+         enum around T, which has the same de / ser as T and is an error when absent (K5-origin). *)
+      let '(i, st1) := tr_ty names t st in
+      (DEnum n None TagUntagged [mkVariant [] n (VItem i)] false [], st1)
   | RdUnit n =>
       let '(i, st1) := alloc DUnit st in (DNewtype n None i CNone, st1)
   | RdEnum n tag rule deny vs =>
